@@ -429,3 +429,8 @@ mod tests {
         }
     }
 }
+
+#[cfg(kani)]
+mod verif {
+    include!(concat!(env!("PROFIRUST_VERIF_HARNESS"), "/fdl_token_ring.rs"));
+}
